@@ -1303,4 +1303,57 @@ theorem run_ZInv (codec : Codec) (hrt : codec.RoundTrip) (h : Bytes → UInt32) 
         obtain ⟨h2, hB2⟩ := ih os (by rw [hB1]; exact hfit) (by rw [hB1]; exact hB) h1 hr2
         exact ⟨h2, by rw [hB2, hB1]⟩
 
+/-! ### from the invariants to the statements -/
+
+theorem fragBlocksOk_get (file : Bytes) : ∀ (cs : List Call) (locs : List Nat) (k : Nat) (c : Call) (loc : Nat),
+    BlockWriter.fragBlocksOk file cs locs = true → cs[k]? = some c → locs[k]? = some loc → c.fragBlk = true →
+    c.stored = true → BlockWriter.slice file loc c.data.length = c.data := by
+  intro cs
+  induction cs with
+  | nil => intro locs k c loc _ hc; simp at hc
+  | cons x xs ih =>
+    intro locs k c loc hok hc hl hfb hst
+    cases locs with
+    | nil => simp at hl
+    | cons l ls =>
+      simp only [BlockWriter.fragBlocksOk, Bool.and_eq_true] at hok
+      cases k with
+      | zero =>
+        simp only [List.getElem?_cons_zero, Option.some.injEq] at hc hl
+        subst hc hl
+        have := hok.1
+        rw [if_pos ⟨hfb, hst⟩] at this
+        simpa using this
+      | succ k =>
+        simp only [List.getElem?_cons_succ] at hc hl
+        exact ih ls k c loc hok.2 hc hl hfb hst
+
+theorem readAt_of_slice (f : Bytes) (off : Nat) (d : Bytes) (hne : d ≠ []) (h : BlockWriter.slice f off d.length = d) :
+    BlockWriter.readAt f off d.length = some d := by
+  have hpos : 0 < d.length := List.length_pos_iff.2 hne
+  have hl := congrArg List.length h
+  simp only [BlockWriter.slice, List.length_take, List.length_drop] at hl
+  unfold BlockWriter.readAt
+  rw [if_neg (by omega), if_pos (by omega), h]
+
+/-- reading fragment block `i` back from the block writer's file gives what the fragment model says a reader gets -/
+theorem fileRead_of_linked (codec : Codec) (s : State) (i : Nat) (d stored : Bytes) (cmp : Bool) (fl : Nat)
+    (hb : s.fd.blocks[i]? = some ⟨d, .written stored cmp, fl⟩) (hne : stored ≠ []) (hsz : stored.length < 2 ^ 24)
+    (hl : Linked s i stored cmp) (hok : BlockWriter.fragBlocksOk s.bw.file s.calls s.locs = true) :
+    fileReadBlock codec s i = FragDedup.readBlock codec s.fd i ∧
+      ∃ loc word, s.fragTbl[i]? = some (loc, word) ∧ word % 2 ^ 24 = stored.length ∧
+        (word &&& (1 <<< 24) != 0) = !cmp ∧ BlockWriter.readAt s.bw.file loc stored.length = some stored := by
+  obtain ⟨k, c, loc, a1, a2, a3, a4, a5, a6, a7⟩ := hl
+  have hs := fragBlocksOk_get s.bw.file s.calls s.locs k c loc hok a1 a2 a4 a5
+  rw [a3] at hs
+  have hr := readAt_of_slice s.bw.file loc stored hne hs
+  have hw := BlockWriter.mkWord_size stored.length c.flags hsz
+  have hraw := mkWord_raw stored.length c.flags hsz
+  rw [a6] at hraw
+  refine ⟨?_, loc, _, a7, hw, hraw, hr⟩
+  unfold fileReadBlock FragDedup.readBlock
+  rw [a7, hb]
+  simp only [hw, hr, hraw]
+  cases cmp <;> simp
+
 end Sqfs.C08Stream
